@@ -311,6 +311,32 @@ Proof.
   rewrite (H x (or_introl eq_refl)). cbn [negb]. rewrite andb_false_r. apply IH. intros y Hy. apply H. right; exact Hy.
 Qed.
 
+Lemma effect_eqb_eq (a b : effect) : effect_eqb a b = true -> a = b.
+Proof.
+  destruct a as [f1 a1 v1 c1 k1 w1 b1], b as [f2 a2 v2 c2 k2 w2 b2]. unfold effect_eqb. cbn [e_fl e_args e_val e_cond e_kind e_vars e_isbool].
+  intros H. nfsplit.
+  repeat match goal with
+         | Hq : (_ =? _)%N = true |- _ => apply N.eqb_eq in Hq
+         | Hq : list_expr_eqb _ _ = true |- _ => apply lexpr_eqb_eq in Hq
+         | Hq : expr_eqb _ _ = true |- _ => apply expr_eqb_eq in Hq
+         | Hq : vars_eqb _ _ = true |- _ => apply vars_eqb_eq in Hq
+         | Hq : Bool.eqb _ _ = true |- _ => apply Bool.eqb_prop in Hq
+         end.
+  subst. destruct k1, k2; try discriminate; reflexivity.
+Qed.
+
+Lemma In_dedup_e x l : In x (dedup_e l) <-> In x l.
+Proof.
+  induction l as [|y l IH]; [tauto|]. cbn [dedup_e]. split.
+  - intros [H|H]; [left; exact H|]. apply filter_In in H. right. apply IH. tauto.
+  - intros [H|H]; [left; exact H|]. destruct (effect_eqb y x) eqn:E.
+    + apply effect_eqb_eq in E. left; exact E.
+    + right. apply filter_In. split; [apply IH; exact H | rewrite E; reflexivity].
+Qed.
+
+Lemma in_eres_of I r effs : In r (eres_of I effs) <-> exists e, In e effs /\ In r (piece I e).
+Proof. unfold eres_of. rewrite in_flat_map. reflexivity. Qed.
+
 (* ================================================================== 3. the step *)
 Section UinrStep.
   Variable umap : list (N * N).
@@ -435,16 +461,21 @@ Section UinrStep.
     isc (e_fl e) = false /\ forallb (upure umap) (e_args e) = true /\ uq umap (e_val e) = true /\
     uq umap (e_cond e) = true /\
     ((e_cond e = EBool true /\ e_vars e = []) \/
-     (uc (e_fl e) = None /\ upure umap (e_val e) = true /\ (e_vars e = [] \/ upure umap (e_cond e) = true))).
+     (upure umap (e_val e) = true /\
+      ((e_vars e = [] /\ (uc (e_fl e) = None \/ e_kind e = KAssign)) \/
+       (uc (e_fl e) = None /\ upure umap (e_cond e) = true)))).
   Proof.
     unfold effect_ok. intros H. apply andb_true_iff in H. destruct H as [H H5]. apply andb_true_iff in H. destruct H as [H H4].
     apply andb_true_iff in H. destruct H as [H H3]. apply andb_true_iff in H. destruct H as [H1 H2].
     apply negb_true_iff in H1. repeat split; try assumption.
     destruct (is_uncond e && is_nil (e_vars e)) eqn:E.
     - left. apply andb_true_iff in E. destruct E as [E1 E2]. split; [apply is_true_eq; exact E1 | apply is_nil_eq; exact E2].
-    - right. apply andb_true_iff in H5. destruct H5 as [H5 H7]. apply andb_true_iff in H5. destruct H5 as [H5 H6].
-      split; [destruct (uc (e_fl e)); [discriminate | reflexivity]|]. split; [exact H6|].
-      apply orb_true_iff in H7. destruct H7 as [H7|H7]; [left; apply is_nil_eq; exact H7 | right; exact H7].
+    - right. apply andb_true_iff in H5. destruct H5 as [H5 H6]. split; [exact H5|].
+      destruct (is_nil (e_vars e)) eqn:En.
+      + left. split; [apply is_nil_eq; exact En|]. destruct (uc (e_fl e)); [right | left; reflexivity].
+        unfold is_kassign in H6. destruct (e_kind e); [reflexivity | discriminate | discriminate].
+      + right. apply andb_true_iff in H6. destruct H6 as [H6 H7]. split; [|exact H7].
+        destruct (uc (e_fl e)); [discriminate | reflexivity].
   Qed.
 
   Lemma eval_effect_eq J J' e : urel J J' -> forallb (upure umap) (e_args e) = true ->
@@ -453,7 +484,8 @@ Section UinrStep.
   Proof. intros HRJ Ha Hc Hv. unfold eval_effect. rewrite (pure_evals_l _ J J' HRJ Ha), Hc, Hv. reflexivity. Qed.
 
   Lemma eval_effect_act J e y : eval_effect false J e = EAct y ->
-    fst (ae_key y) = e_fl e /\ ae_kind y = e_kind e /\ evals_l false J (e_args e) = Some (snd (ae_key y)).
+    fst (ae_key y) = e_fl e /\ ae_kind y = e_kind e /\ evals_l false J (e_args e) = Some (snd (ae_key y)) /\
+    eval false (e_cond e) J = Some (VBool true).
   Proof.
     unfold eval_effect. destruct (evals_l false J (e_args e)); [|discriminate].
     destruct (eval false (e_cond e) J) as [[[|]| |]|]; try discriminate.
@@ -503,13 +535,14 @@ Section UinrStep.
     - apply in_map_iff in H. destruct H as [e [<- He]]. apply (eff_shape e (Heff e He)).
   Qed.
 
-  (* an effect on a tracked fluent is unconditional and has no forall variables: it yields exactly one instance *)
-  Lemma tracked_piece e d : In e effs -> uc (e_fl e) = Some d -> piece I e = [fire I e].
+  (* an effect on a tracked fluent has no forall variables: it yields exactly one instance *)
+  Lemma tracked_vars e d : In e effs -> uc (e_fl e) = Some d -> e_vars e = [].
   Proof.
-    intros He Hd. destruct (eff_shape e (Heff e He)) as (_ & _ & _ & _ & [[Hc Hn]|(Hu & _)]); [|congruence].
-    unfold piece. rewrite Hn. cbn [instances map]. f_equal. unfold eval_effect, fire. rewrite Hc. cbn [eval].
-    reflexivity.
+    intros He Hd. destruct (eff_shape e (Heff e He)) as (_ & _ & _ & _ & [[_ Hn]|(_ & [[Hn _]|[Hu _]])]); [assumption | assumption | congruence].
   Qed.
+
+  Lemma tracked_piece e d : In e effs -> uc (e_fl e) = Some d -> piece I e = [eval_effect false I e].
+  Proof. intros He Hd. unfold piece. rewrite (tracked_vars e d He Hd). reflexivity. Qed.
 
   Lemma act_origin y : In y acts ->
     exists e J, In e effs /\ In J (instances I (e_vars e)) /\ eval_effect false J e = EAct y.
@@ -526,91 +559,92 @@ Section UinrStep.
 
   Lemma tracked_act y d : In y acts -> uc (fst (ae_key y)) = Some d ->
     exists e, In e effs /\ e_fl e = fst (ae_key y) /\ ae_kind y = e_kind e /\
-              evals_l false I (e_args e) = Some (snd (ae_key y)).
+              evals_l false I (e_args e) = Some (snd (ae_key y)) /\ eval false (e_cond e) I = Some (VBool true).
   Proof.
-    intros H Hd. destruct (act_origin y H) as [e [J (He & HJ & E)]]. destruct (eval_effect_act J e y E) as (E1 & E2 & E3).
-    exists e. rewrite E1 in Hd.
-    destruct (eff_shape e (Heff e He)) as (_ & _ & _ & _ & [[Hc Hn]|(Hu & _)]); [|congruence].
-    rewrite Hn in HJ. cbn [instances] in HJ. destruct HJ as [<-|[]]. auto.
+    intros H Hd. destruct (act_origin y H) as [e [J (He & HJ & E)]]. destruct (eval_effect_act J e y E) as (E1 & E2 & E3 & E4).
+    exists e. rewrite E1 in Hd. rewrite (tracked_vars e d He Hd) in HJ. cbn [instances] in HJ. destruct HJ as [<-|[]]. auto.
   Qed.
 
   (* ---- the added effects *)
-  Definition xres (r : fexp) : list Sem.eres :=
-    match uc (fst r) with
-    | Some d => [match evals_l false I' (snd r) with
-                 | Some vs => EAct {| ae_key := (d, vs); ae_kind := KAssign; ae_val := VBool true |}
+  Definition tres (d : N) (e : effect) : Sem.eres :=
+    match evals_l false I' (e_args e) with
+    | Some vs => match eval false (e_cond e) I' with
+                 | Some (VBool true) => EAct {| ae_key := (d, vs); ae_kind := KAssign; ae_val := VBool true |}
+                 | Some _ => ESkip
                  | None => EErr
-                 end]
-    | None => []
+                 end
+    | None => EErr
     end.
 
-  Lemma extras_eres rs : eres_of I' (flat_map (def_effect umap) rs) = flat_map xres rs.
-  Proof.
-    induction rs as [|r rs IH]; [reflexivity|]. cbn [flat_map]. rewrite eres_of_app, IH. f_equal.
-    unfold def_effect, xres. destruct (uc (fst r)); [|reflexivity]. rewrite eres_of_one. unfold piece.
-    cbn [e_vars instances map]. unfold eval_effect. cbn [e_args e_cond e_val eval e_fl e_kind].
-    destruct (evals_l false I' (snd r)); reflexivity.
-  Qed.
-
-  Notation xl := (flat_map xres (set_targets umap a)).
+  Notation X := (dedup_e (flat_map (track_effect umap a) effs)).
+  Notation xl := (eres_of I' X).
   Notation xacts := (acts_of xl).
 
-  Lemma in_affected r : In r (affected umap a) <-> exists e d, In e effs /\ uc (e_fl e) = Some d /\ r = (e_fl e, e_args e).
+  Lemma in_X t : In t X <->
+    exists e d, In e effs /\ uc (e_fl e) = Some d /\
+                existsb (fexp_eqb (e_fl e, e_args e)) (a_reads umap a) = false /\ t = mk_tracker d e.
   Proof.
-    unfold affected. rewrite in_flat_map. split.
-    - intros [e [He H]]. destruct (uc (e_fl e)) as [d|] eqn:Ed; [|destruct H]. destruct H as [<-|[]]. exists e, d. auto.
-    - intros [e [d (He & Ed & ->)]]. exists e. split; [exact He|]. rewrite Ed. left; reflexivity.
+    rewrite In_dedup_e, in_flat_map. unfold track_effect. split.
+    - intros [e [He H]]. destruct (uc (e_fl e)) as [d|] eqn:Ed; [|destruct H].
+      destruct (existsb (fexp_eqb (e_fl e, e_args e)) (a_reads umap a)) eqn:Ex; [destruct H|].
+      destruct H as [<-|[]]. exists e, d. auto.
+    - intros [e [d (He & Ed & Ex & ->)]]. exists e. split; [exact He|]. rewrite Ed, Ex. left; reflexivity.
   Qed.
 
-  Lemma in_set_targets r : In r (set_targets umap a) <->
-    In r (affected umap a) /\ existsb (fexp_eqb r) (a_reads umap a) = false.
-  Proof. unfold set_targets. rewrite filter_In, In_dedup_f, negb_true_iff. tauto. Qed.
+  Lemma tracker_piece e d : In e effs -> uc (e_fl e) = Some d -> piece I' (mk_tracker d e) = [tres d e].
+  Proof.
+    intros He Ed. unfold piece. cbn [mk_tracker e_vars]. rewrite (tracked_vars e d He Ed). cbn [instances map]. f_equal.
+    unfold eval_effect, tres. cbn [mk_tracker e_args e_cond e_val e_fl e_kind eval].
+    destruct (evals_l false I' (e_args e)); [|reflexivity].
+    destruct (eval false (e_cond e) I') as [[[|]| |]|]; reflexivity.
+  Qed.
+
+  Lemma in_xl r : In r xl <->
+    exists e d, In e effs /\ uc (e_fl e) = Some d /\
+                existsb (fexp_eqb (e_fl e, e_args e)) (a_reads umap a) = false /\ r = tres d e.
+  Proof.
+    rewrite in_eres_of. split.
+    - intros [t [Ht Hr]]. apply in_X in Ht. destruct Ht as [e [d (He & Ed & Ex & ->)]].
+      rewrite (tracker_piece e d He Ed) in Hr. destruct Hr as [<-|[]]. exists e, d. auto.
+    - intros [e [d (He & Ed & Ex & ->)]]. exists (mk_tracker d e). split.
+      + apply in_X. exists e, d. auto.
+      + rewrite (tracker_piece e d He Ed). left; reflexivity.
+  Qed.
 
   Lemma args_same e : In e effs -> evals_l false I' (e_args e) = evals_l false I (e_args e).
   Proof. intros He. apply (pure_evals_l _ I I' HR). apply (eff_shape e (Heff e He)). Qed.
 
   Lemma xacts_in x : In x xacts ->
     exists e d vs, In e effs /\ uc (e_fl e) = Some d /\ evals_l false I (e_args e) = Some vs /\
+                   eval false (e_cond e) I' = Some (VBool true) /\
                    x = {| ae_key := (d, vs); ae_kind := KAssign; ae_val := VBool true |}.
   Proof.
-    intros H. apply in_acts_of in H. apply in_flat_map in H. destruct H as [r [Hr H]].
-    apply in_set_targets in Hr. destruct Hr as [Hr _]. apply in_affected in Hr. destruct Hr as [e [d (He & Ed & ->)]].
-    unfold xres in H. cbn [fst snd] in H. rewrite Ed, (args_same e He) in H. destruct H as [H|[]].
-    destruct (evals_l false I (e_args e)) as [vs|] eqn:Ev; [|discriminate]. inversion H. exists e, d, vs. auto.
+    intros H. apply in_acts_of in H. apply in_xl in H. destruct H as [e [d (He & Ed & _ & H)]].
+    unfold tres in H. rewrite (args_same e He) in H.
+    destruct (evals_l false I (e_args e)) as [vs|] eqn:Ev; [|discriminate].
+    destruct (eval false (e_cond e) I') as [[[|]| |]|] eqn:Ec; try discriminate. inversion H. exists e, d, vs. auto.
   Qed.
 
   Section NoError.
     Hypothesis Hne : has_err (eres_of I effs) = false.
 
     Lemma tracked_ok e d : In e effs -> uc (e_fl e) = Some d ->
-      exists vs, evals_l false I (e_args e) = Some vs /\
-                 exists y, In y acts /\ ae_key y = (e_fl e, vs) /\ ae_kind y = e_kind e.
+      exists vs, evals_l false I (e_args e) = Some vs /\ eval false (e_cond e) I <> None /\
+                 (eval false (e_cond e) I = Some (VBool true) ->
+                  exists y, In y acts /\ ae_key y = (e_fl e, vs) /\ ae_kind y = e_kind e).
     Proof.
-      intros He Hd. assert (Hin : In (fire I e) (eres_of I effs)).
-      { unfold eres_of. apply in_flat_map. exists e. split; [exact He|]. fold (piece I e). rewrite (tracked_piece e d He Hd). left; reflexivity. }
-      unfold fire in Hin. destruct (evals_l false I (e_args e)) as [vs|].
-      - exists vs. split; [reflexivity|]. destruct (eval false (e_val e) I) as [v|].
-        + eexists. split; [apply in_acts_of; exact Hin|]. split; reflexivity.
+      intros He Hd. assert (Hin : In (eval_effect false I e) (eres_of I effs)).
+      { apply in_eres_of. exists e. split; [exact He|]. rewrite (tracked_piece e d He Hd). left; reflexivity. }
+      unfold eval_effect in Hin. destruct (evals_l false I (e_args e)) as [vs|].
+      - exists vs. split; [reflexivity|]. destruct (eval false (e_cond e) I) as [[[|]| |]|].
+        + split; [discriminate|]. intros _. destruct (eval false (e_val e) I) as [v|].
+          * eexists. split; [apply in_acts_of; exact Hin|]. split; reflexivity.
+          * apply has_err_in in Hin. congruence.
+        + split; [discriminate | discriminate].
+        + split; [discriminate | discriminate].
+        + split; [discriminate | discriminate].
         + apply has_err_in in Hin. congruence.
       - apply has_err_in in Hin. congruence.
-    Qed.
-
-    Lemma xacts_noerr : has_err xl = false.
-    Proof.
-      destruct (has_err xl) eqn:E; [|reflexivity]. exfalso. apply has_err_in in E. apply in_flat_map in E.
-      destruct E as [r [Hr H]]. apply in_set_targets in Hr. destruct Hr as [Hr _]. apply in_affected in Hr.
-      destruct Hr as [e [d (He & Ed & ->)]]. unfold xres in H. cbn [fst snd] in H. rewrite Ed, (args_same e He) in H.
-      destruct (tracked_ok e d He Ed) as [vs [Ev _]]. rewrite Ev in H. destruct H as [H|[]]. discriminate.
-    Qed.
-
-    Lemma xacts_cover e d vs : In e effs -> uc (e_fl e) = Some d -> evals_l false I (e_args e) = Some vs ->
-      (exists x, In x xacts /\ ae_key x = (d, vs)) \/ existsb (fexp_eqb (e_fl e, e_args e)) (a_reads umap a) = true.
-    Proof.
-      intros He Ed Ev. destruct (existsb (fexp_eqb (e_fl e, e_args e)) (a_reads umap a)) eqn:Ex; [right; reflexivity|].
-      left. exists {| ae_key := (d, vs); ae_kind := KAssign; ae_val := VBool true |}. split; [|reflexivity].
-      apply in_acts_of. apply in_flat_map. exists (e_fl e, e_args e). split.
-      - apply in_set_targets. split; [|exact Ex]. apply in_affected. exists e, d. auto.
-      - unfold xres. cbn [fst snd]. rewrite Ed, (args_same e He), Ev. left; reflexivity.
     Qed.
   End NoError.
 
@@ -631,7 +665,7 @@ Section UinrStep.
     Proof.
       intros He. destruct (eff_shape e (Heff e He)) as (_ & Ha & Hv & Hc & Hs).
       assert (Hcase : e_vars e = [] \/ (upure umap (e_val e) = true /\ upure umap (e_cond e) = true)).
-      { destruct Hs as [[_ Hn]|(_ & Hpv & [Hn|Hpc])]; auto. }
+      { destruct Hs as [[_ Hn]|(Hpv & [[Hn _]|[_ Hpc]])]; auto. }
       destruct Hcase as [Hn|[Hpv Hpc]].
       - unfold piece. rewrite Hn. cbn [instances map]. f_equal.
         apply (eval_effect_eq I I' e HR Ha); apply expr_eq; [apply in_exprs_cond | apply in_exprs_val]; exact He.
@@ -642,19 +676,41 @@ Section UinrStep.
     Lemma eres_eq : eres_of I' effs = eres_of I effs.
     Proof. unfold eres_of. apply flat_map_ext_in'. intros e He. apply (piece_eq e He). Qed.
 
+    Lemma cond_same e : In e effs -> eval false (e_cond e) I' = eval false (e_cond e) I.
+    Proof. intros He. apply expr_eq, in_exprs_cond, He. Qed.
+
+    (* the tracker of an assignment that fires fires too (same condition), unless the target is among the reads *)
+    Lemma xacts_cover e d vs : In e effs -> uc (e_fl e) = Some d -> evals_l false I (e_args e) = Some vs ->
+      eval false (e_cond e) I = Some (VBool true) ->
+      (exists x, In x xacts /\ ae_key x = (d, vs)) \/ existsb (fexp_eqb (e_fl e, e_args e)) (a_reads umap a) = true.
+    Proof.
+      intros He Ed Ev Ec. destruct (existsb (fexp_eqb (e_fl e, e_args e)) (a_reads umap a)) eqn:Ex; [right; reflexivity|].
+      left. exists {| ae_key := (d, vs); ae_kind := KAssign; ae_val := VBool true |}. split; [|reflexivity].
+      apply in_acts_of. apply in_xl. exists e, d. repeat split; auto.
+      unfold tres. rewrite (args_same e He), Ev, (cond_same e He), Ec. reflexivity.
+    Qed.
+
     Section Fluents.
       Hypothesis Hne : has_err (eres_of I effs) = false.
 
+      Lemma xacts_noerr : has_err xl = false.
+      Proof.
+        destruct (has_err xl) eqn:E; [|reflexivity]. exfalso. apply has_err_in in E. apply in_xl in E.
+        destruct E as [e [d (He & Ed & _ & H)]]. unfold tres in H. rewrite (args_same e He), (cond_same e He) in H.
+        destruct (tracked_ok Hne e d He Ed) as [vs (Ev & Hc & _)]. rewrite Ev in H.
+        destruct (eval false (e_cond e) I) as [[[|]| |]|]; try discriminate. apply Hc; reflexivity.
+      Qed.
+
       Lemma xact_key x : In x xacts -> isc (fst (ae_key x)) = true /\ is_assign x = true /\ ae_val x = VBool true.
       Proof.
-        intros H. destruct (xacts_in x H) as [e [d [vs (He & Ed & Ev & ->)]]]. cbn.
+        intros H. destruct (xacts_in x H) as [e [d [vs (He & Ed & Ev & _ & ->)]]]. cbn.
         split; [apply (ucomp_isc umap _ _ Ed) | auto].
       Qed.
 
       Lemma old_same y d : In y acts -> is_assign y = false -> uc (fst (ae_key y)) = Some d ->
         s' (fst (ae_key y)) (snd (ae_key y)) = s (fst (ae_key y)) (snd (ae_key y)).
       Proof.
-        intros Hy Hna Hd. destruct (tracked_act y d Hy Hd) as [e (He & Ef & Ek & Ev)].
+        intros Hy Hna Hd. destruct (tracked_act y d Hy Hd) as [e (He & Ef & Ek & Ev & _)].
         assert (Hk : e_kind e <> KAssign).
         { intros E. unfold is_assign in Hna. rewrite Ek, E in Hna. discriminate. }
         pose proof (in_exprs_tgt e He Hk) as Hin.
@@ -753,9 +809,10 @@ Section UinrStep.
             * exfalso. rewrite (sf_comp (d, vs) Hdc) in Ec. destruct (avals (d, vs) xacts) as [|v0 A0] eqn:E; [discriminate|].
               assert (Hv : In v0 (avals (d, vs) xacts)) by (rewrite E; left; reflexivity).
               apply in_avals in Hv. destruct Hv as [x (Hx & Hkx & _)]. apply gfl_eqb_eq in Hkx.
-              destruct (xacts_in x Hx) as [e [d0 [vs0 (He & Ed0 & Ev0 & ->)]]]. cbn [ae_key] in Hkx. inversion Hkx; subst d0 vs0.
+              destruct (xacts_in x Hx) as [e [d0 [vs0 (He & Ed0 & Ev0 & Ec0 & ->)]]]. cbn [ae_key] in Hkx. inversion Hkx; subst d0 vs0.
               pose proof (uc_inj _ _ _ Ed0 Hd) as Ef.
-              destruct (tracked_ok Hne e d He Ed0) as [vs1 [Ev1 [y (Hy & Hky & _)]]].
+              destruct (tracked_ok Hne e d He Ed0) as [vs1 (Ev1 & _ & Hy1)].
+              rewrite (cond_same e He) in Ec0. destruct (Hy1 Ec0) as [y (Hy & Hky & _)].
               rewrite Ev0 in Ev1. inversion Ev1; subst vs1. rewrite Ef in Hky. exact (Hno y Hy Hky).
             * rewrite Ec. exact H2.
           + (* assigned or increased *)
@@ -765,9 +822,9 @@ Section UinrStep.
               destruct (deltas (f, vs) acts); [discriminate | right; discriminate]. }
             destruct Hex as [y [Hy Hky]].
             assert (Hd' : uc (fst (ae_key y)) = Some d) by (rewrite Hky; exact Hd).
-            destruct (tracked_act y d Hy Hd') as [e (He & Ef & _ & Ev)]. rewrite Hky in Ef, Ev. cbn [fst snd] in Ef, Ev.
+            destruct (tracked_act y d Hy Hd') as [e (He & Ef & _ & Ev & Ec)]. rewrite Hky in Ef, Ev. cbn [fst snd] in Ef, Ev.
             rewrite <- Ef in Hd.
-            destruct (xacts_cover e d vs He Hd Ev) as [[x [Hx Hkx]]|Hread].
+            destruct (xacts_cover e d vs He Hd Ev Ec) as [[x [Hx Hkx]]|Hread].
             * rewrite (sf_comp_some (d, vs) x Hx Hkx). reflexivity.
             * apply existsb_exists in Hread. destruct Hread as [r [Hr Er]]. apply fexp_eqb_eq in Er. subst r.
               assert (Ev' : evals false I' (e_args e) = Some vs) by (rewrite <- evals_l_is_evals, (args_same e He); exact Ev).
@@ -814,7 +871,7 @@ Section UinrStep.
     - (* an effect value *)
       apply in_map_iff in Hx. destruct Hx as [e [<- He]].
       destruct (all_hold false I (a_pre a)); [|reflexivity]. cbn [negb]. apply finish_err.
-      destruct (eff_shape e (Heff e He)) as (_ & _ & _ & _ & [[Hc Hn]|(_ & Hpv & _)]).
+      destruct (eff_shape e (Heff e He)) as (_ & _ & _ & _ & [[Hc Hn]|(Hpv & _)]).
       + apply (err_in_effs e He Hn). unfold eval_effect. destruct (evals_l false I (e_args e)); [|reflexivity].
         rewrite Hc. cbn [eval]. rewrite B. reflexivity.
       + unfold upure in Hpv. apply andb_true_iff in Hpv. destruct Hpv as [_ Hn]. apply is_nil_eq in Hn.
@@ -827,9 +884,11 @@ Section UinrStep.
       destruct (all_hold false I (a_pre a)); [|reflexivity]. cbn [negb].
       destruct (eff_shape e (Heff e He)) as (_ & Ha & _ & _ & Hs).
       destruct (uc (e_fl e)) as [d|] eqn:Ed.
-      + destruct Hs as [[Hc Hn]|(Hu & _)]; [|congruence].
+      + destruct Hs as [[Hc Hn]|(_ & [[_ [Hu|Hka]]|[Hu _]])]; [|congruence|congruence|congruence].
         destruct (has_err (eres_of I effs)) eqn:Hne; [apply finish_err; exact Hne|].
-        destruct (tracked_ok Hne e d He Ed) as [vs [Ev [y (Hy & Hky & Hkk)]]].
+        destruct (tracked_ok Hne e d He Ed) as [vs (Ev & _ & Hy1)].
+        assert (Ect : eval false (e_cond e) I = Some (VBool true)) by (rewrite Hc; reflexivity).
+        destruct (Hy1 Ect) as [y (Hy & Hky & Hkk)].
         rewrite eval_EFluent, <- evals_l_is_evals, Ev in B. cbn [mk_interp fl] in B.
         unfold finish_step. rewrite collect_res_spec, Hne.
         assert (Ef : spec_effects_ok P s acts = false).
@@ -851,7 +910,7 @@ Section UinrStep.
     - (* an effect condition *)
       apply in_map_iff in Hx. destruct Hx as [e [<- He]].
       destruct (all_hold false I (a_pre a)); [|reflexivity]. cbn [negb]. apply finish_err.
-      destruct (eff_shape e (Heff e He)) as (_ & _ & _ & _ & [[Hc Hn]|(_ & _ & [Hn|Hpc])]).
+      destruct (eff_shape e (Heff e He)) as (_ & _ & _ & _ & [[Hc Hn]|(_ & [[Hn _]|[_ Hpc]])]).
       + rewrite Hc in B. discriminate.
       + apply (err_in_effs e He Hn). unfold eval_effect. destruct (evals_l false I (e_args e)); [|reflexivity].
         rewrite B. reflexivity.
@@ -921,9 +980,9 @@ Section UinrStep.
     - rewrite !spec_step_unfold. cbv zeta. cbn [a_params a_pre a_effs u_action].
       rewrite all_hold_fold_add_pre, guards_as_conds, G, andb_true_r, (pre_eq G).
       destruct (all_hold false I (a_pre a)); [|exact Logic.I]. cbn [negb].
-      rewrite eres_of_app, (eres_eq G), extras_eres.
+      rewrite eres_of_app, (eres_eq G).
       unfold finish_step. rewrite !collect_res_spec, has_err_app, acts_of_app.
-      destruct (has_err (eres_of I effs)) eqn:Hne; [exact Logic.I|]. rewrite (xacts_noerr Hne). cbn [orb].
+      destruct (has_err (eres_of I effs)) eqn:Hne; [exact Logic.I|]. rewrite (xacts_noerr G Hne). cbn [orb].
       rewrite (effects_ok_eq G). destruct (spec_effects_ok P s acts) eqn:Eok; [|exact Logic.I]. cbn [negb].
       pose proof (succ_rel G Hne Eok) as Hrel. rewrite (uinr_invariants _ _ Hrel Hinv).
       destruct (invariants_ok false P (spec_succ P s acts)); [exact Hrel | exact Logic.I].
